@@ -344,3 +344,29 @@ pub fn probe_hash_seeds(names: &[&str], max: usize) -> Vec<(u64, Vec<String>)> {
     vh::set_hash_seed(0);
     found
 }
+
+
+/// Payload sizes at which something changes in the framing or in an integer width: an entry that
+/// fills its frame / block / file exactly, one byte more or less, and (real geometry) the u16
+/// boundary.
+pub fn special_sizes() -> Vec<usize> {
+    let single = BLOCK - 7 - 24; // a 1-byte-named single-record append filling a block exactly
+    let mut v = vec![single - 1, single, single + 1, BLOCK - 7, BLOCK - 1, BLOCK, BLOCK + 1, 2 * BLOCK, FILE - 31, FILE - 7, FILE, FILE + 1];
+    if !TINY {
+        v.extend([65535 - 24, 65535, 65536, 65537]);
+    }
+    v.sort();
+    v.dedup();
+    v
+}
+
+/// Alphabet: appends of every special size to queue a, a small append to b, truncations, restart.
+pub fn a_sizes() -> Vec<Op> {
+    let mut v: Vec<Op> = special_sizes().into_iter().map(|n| Op::app(QA, Pos::Auto, Sz::N(n as u32))).collect();
+    v.push(Op::app(QB, Pos::Auto, Sz::S3));
+    v.push(Op::Append { q: QA, pos: Pos::Auto, sizes: vec![Sz::S0, Sz::N((BLOCK - 7 - 24 - 12) as u32)] });
+    v.push(Op::Trunc { q: QA, at: Tr::First });
+    v.push(Op::Trunc { q: QA, at: Tr::Last });
+    v.push(Op::Reopen);
+    v
+}
